@@ -32,6 +32,7 @@ type stubCase struct {
 	scenario string
 	method   *idl.Method
 	flags    int // 0, 1 (more), 2 (oneway), 8 (upgrade)
+	viaSend  bool // flags == 8: pass varlink.Upgrade to the generated Send stub instead of calling the Upgrade stub (same wire form)
 	ins      []*gval
 	replies  []stubReply // what the implementation does, in order
 	errName  string
@@ -90,6 +91,7 @@ func (d *stubDesc) genCases(g *Rng, perDesc int) {
 				c.replies = []stubReply{{false, outs()}}
 			case 2:
 				c.flags = 8
+				c.viaSend = g.Bool()
 				c.replies = []stubReply{{false, outs()}}
 			default:
 				c.replies = []stubReply{{false, outs()}}
@@ -567,7 +569,7 @@ func (d *stubDesc) driverSource() string {
 			if c.scenario == "error" || c.scenario == "notimpl" {
 				nrecv = 1
 			}
-			if c.flags == 8 {
+			if c.flags == 8 && !c.viaSend {
 				lhsU := strings.Join(append(append([]string{}, outNames...), "fl", "_", "err2"), ", ")
 				fmt.Fprintf(&body, "\t\trecv, err := g.%s().Upgrade(ctx, conn%s)\n\t\tif err != nil {\n\t\t\trec.Result(nil, 0, err)\n\t\t} else {\n", m.Name, ins)
 				fmt.Fprintf(&body, "\t\t\t%s := recv(ctx)\n\t\t\trec.Result([]interface{}{%s}, fl, err2)\n\t\t}\n", lhsU, vals)
